@@ -27,9 +27,9 @@ m = {
     "setup_cmd": "./setup.sh",
     "hooks": {
         "guard": "verif",
-        "enable": "checks load and build /repo with -tags verif (go/packages BuildFlags and go test -tags verif); the only hook is parse.verifYield, an empty function without the tag, called once in collectSpecs; harnesses and the nd package are injected with overlays, never written into /repo",
+        "enable": "checks load and build /repo with -tags verif (go/packages BuildFlags and go test -tags verif); the only hook is parse.verifYield, an empty function without the tag, called in collectSpecs (before the claim) and in parseString (inside the guarded region); harnesses and the nd package are injected with overlays, never written into /repo",
         "baseline_off_cmd": "for m in $(cat /w/out/gomods.txt); do MF=$(cd /repo/$m && . /w/out/goenv.sh && gomodflag); (cd /repo/$m && go test $MF -json -vet=off -count=1 -timeout 25m ./...); done",
-        "source_commits": ["810c0ad"],
+        "source_commits": ["810c0ad", "ca7d035"],
         "add_only": True,
     },
     "engines": [{"name": "gosym", "path": "engine", "serves_properties": [c["property_id"] for c in out_checks],
